@@ -261,7 +261,8 @@ def prefixed_value(chk, fn, fk, c2):
 
 
 def context_lookup(chk, F):
-    fn = F.find(CORE, "loader::context::Context::lookup")
+    # normalised: `x.or_else(|| self.registry.lookup(name))` is the match it stands for
+    fn = F.find(CORE, "loader::context::Context::lookup", inline=True, keep=("Registry::lookup",))
     fk = "rink_core::loader::context::Context::lookup"
     sites = calls_to(fn, "loader::registry::Registry::lookup")
     if len(sites) != 1:
